@@ -406,10 +406,11 @@ class ExpressionScalar(Expression):
         return self.make(self._sympified_expression.__rtruediv__(self._extract_sympified(other)))
 
     def __floordiv__(self, other: Union['ExpressionScalar', Number, sympy.Expr]) -> 'ExpressionScalar':
-        return self.make(self._sympified_expression.__floordiv__(self._extract_sympified(other)))
+        # floor(a / b); sympy's Number.__floordiv__ is not used (it rounds negative rational quotients towards zero)
+        return self.make(sympy.floor(self._sympified_expression.__truediv__(self._extract_sympified(other))))
 
     def __rfloordiv__(self, other: Union['ExpressionScalar', Number, sympy.Expr]) -> 'ExpressionScalar':
-        return self.make(self._sympified_expression.__rfloordiv__(self._extract_sympified(other)))
+        return self.make(sympy.floor(self._sympified_expression.__rtruediv__(self._extract_sympified(other))))
 
     def __neg__(self) -> 'ExpressionScalar':
         return self.make(self._sympified_expression.__neg__())
